@@ -269,6 +269,34 @@ func extractBlockMgr() {
 	}
 	l.def("rollbackLowersFilterTip", "Bool", lbool(lowers), "rollBackToHeight lowers filterHeaderTip(+Hash) under newFilterHeadersMtx after rolling the filter store back")
 
+	// the notification channel is a rendezvous: `blockNtfnChan: make(chan blockntfns.BlockNtfn)` with
+	// no capacity argument, in the composite literal of newBlockManager
+	ntfnCap := "?"
+	if nb := funcDecl(f, "", "newBlockManager"); nb == nil {
+		fail("blockmanager.go: func newBlockManager")
+	} else {
+		ast.Inspect(nb.Body, func(x ast.Node) bool {
+			kv, ok := x.(*ast.KeyValueExpr)
+			if !ok || src(kv.Key) != "blockNtfnChan" {
+				return true
+			}
+			if c, ok := kv.Value.(*ast.CallExpr); ok && src(c.Fun) == "make" && len(c.Args) >= 1 &&
+				strings.HasPrefix(src(c.Args[0]), "chan ") {
+				if len(c.Args) == 1 {
+					ntfnCap = "0"
+				} else {
+					ntfnCap = src(c.Args[1])
+				}
+			}
+			return false
+		})
+		if ntfnCap == "?" {
+			fail("newBlockManager: blockNtfnChan: make(chan …)")
+		}
+	}
+	l.def("blockNtfnChanCap", "String", fmt.Sprintf("%q", ntfnCap), "capacity argument of make(chan blockntfns.BlockNtfn …) for blockNtfnChan (\"0\" = none given: unbuffered)")
+	l.def("blockNtfnChanUnbuffered", "Bool", lbool(ntfnCap == "0"), "blockNtfnChan is unbuffered: every event is handed over before the handler goes on")
+
 	// numMaxMemHeaders
 	num := ""
 	for _, d := range f.Decls {
